@@ -149,7 +149,9 @@ impl Trace {
         Trace { w: std::io::BufWriter::new(std::fs::File::create(path).expect("create trace")), n: 0 }
     }
     pub fn emit(&mut self, v: Value) {
-        serde_json::to_writer(&mut self.w, &v).unwrap();
+        // (strings read out of freed memory by a broken build are not valid UTF-8: the trace must stay a valid text file)
+        let bytes = serde_json::to_vec(&v).unwrap();
+        self.w.write_all(String::from_utf8_lossy(&bytes).as_bytes()).unwrap();
         self.w.write_all(b"\n").unwrap();
         self.n += 1;
         if self.n % 64 == 0 {
